@@ -21,7 +21,7 @@ from dlv.core import ShardCtx, ShardResult
 PROPERTY = 'C16'
 LEVEL = 'fault_enumeration'
 RULE = ('(A) route table x {existing, missing-piece streams: clear-only, no audio, no timing reference, unindexed file, empty} '
-        'x every registered cgi name x 38 type-confusion values (empty, none, negative, 0, huge, float, list, wrong enum, '
+        'x every registered cgi name x 41 type-confusion values (empty, none, negative, 0, huge, float, list, wrong enum, '
         'wrong separator, unicode, percent-escapes, repeated key) singly + sampled pairs; (B) truncate at every box boundary +-1, '
         'header bit flips, size := 0/1/7/2^32-1/beyond, type := random, sample_count := 2^32-1 on fixture init/media/whole '
         'files -> parser (eager, lazy) and upload/index/serve; (C) {v,a,t,m}err specs x failures in {absent,0,1,3} x interleaved '
@@ -52,6 +52,7 @@ VALUES = [
     ('duration', 'PT10S'), ('negduration', '-PT5S'), ('u32max', '4294967295'), ('i32over', '2147483648'),
     ('errtime', '404=00:00:00Z'), ('erriso', '404=2024-06-06T12:30:00Z'), ('errdur', '404=PT10S'),
     ('symbolic', 'epoch'), ('today', 'today'), ('unidigits', '١٢٣'), ('plus', '+5'), ('exp', '1e3'),
+    ('naive-iso', '2024-06-06T00:00:00'), ('date-only', '2024-06-06'), ('u32near', '4000000000'),
 ]
 # values for the parameters in the path itself (segment number / time, patch publish time, names)
 PATH_VALUES = ['0', '1', '-1', '99999999999999', '99999999999999999999999', '4294967296', 'abc', '1.5', '%00',
